@@ -240,12 +240,15 @@ impl Engine for WrapSim {
         let mut ops = Vec::new();
         let fault_run = rng.chance(1, 3);
         let mut block = world.block.number;
+        // accounts that exist on the disk but hold nothing (empty, or storage only): where
+        // "exists" and "does not exist" are easy to confuse
+        let special: Vec<Address> = world.disk.accounts.iter().filter(|(_, d)| d.is_empty()).map(|(a, _)| *a).collect();
         for _ in 0..n {
-            let a = *rng.pick(&world.universe);
+            let a = if !special.is_empty() && rng.chance(1, 4) { *rng.pick(&special) } else { *rng.pick(&world.universe) };
             let op = match rng.below(18) {
                 0 | 1 | 2 => Q::Basic(a),
                 3 | 4 => Q::Code(*rng.pick(&world.contracts)),
-                5 | 6 | 7 => Q::Storage(*rng.pick(&world.contracts), *rng.pick(&world.slots)),
+                5 | 6 | 7 => Q::Storage(if rng.chance(1, 3) { a } else { *rng.pick(&world.contracts) }, *rng.pick(&world.slots)),
                 8 | 9 | 10 => {
                     // around the 256-block window, far past, the future
                     let n = match rng.below(8) {
